@@ -10,6 +10,28 @@ from ..rules import api
 
 
 def dict_assigned(fi, name):
+    """The string-keyed dict literal assigned to a local in fi (the registry table); `name` is only
+    a hint used when several exist."""
+    cands = []
+    for n in walk_no_nested(fi.node):
+        if isinstance(n, ast.Assign) and len(n.targets) == 1 and isinstance(n.targets[0], ast.Name):
+            v = n.value
+            d = None
+            if isinstance(v, ast.Dict):
+                d = v
+            elif isinstance(v, ast.Call) and call_name(v) == "dict" and not v.args and v.keywords:
+                d = ast.copy_location(ast.Dict(keys=[ast.Constant(k.arg) for k in v.keywords], values=[k.value for k in v.keywords]), v)
+            if d is not None and d.keys and all(isinstance(k, ast.Constant) and isinstance(k.value, str) for k in d.keys):
+                cands.append((n.targets[0].id, d))
+    if not cands:
+        return None
+    for nm, d in cands:
+        if nm == name:
+            return d
+    return max(cands, key=lambda c: len(c[1].keys))[1]
+
+
+def _dict_assigned_by_name(fi, name):
     for n in walk_no_nested(fi.node):
         if isinstance(n, ast.Assign) and len(n.targets) == 1 and isinstance(n.targets[0], ast.Name) and n.targets[0].id == name:
             v = n.value
